@@ -8,7 +8,7 @@ undo it straight afterwards; record everything in meta.json."""
 import json, os, shutil, subprocess, sys, glob, re
 pid = sys.argv[1]
 checks = sys.argv[2].split(',') if len(sys.argv) > 2 else [pid]
-wt = f"/tmp/wt-{pid}"
+wt = os.environ.get("WT_PREFIX", "/tmp/wt-") + pid
 FEATS = "charsets,json,form,multipart-form,basic-auth"
 # evaluation target: /repo + /verif (what the brief prescribes), or a scratch copy of both (EVAL=scratch) so that
 # evaluations can run while other checks are using /repo; scratch results are confirmed on /repo afterwards
